@@ -347,7 +347,7 @@ pub fn profile_for(prop: &str) -> PProfile {
         "C08" => PProfile { chaos_clear_pct: 15, over_capacity_pct: 60, exit_only_cb_pct: 20, ttl_pct: 30, ..d },
         "C10" => PProfile { wait_pct: 25, chaos_clear_pct: 35, chaos_close_pct: 35, small_buffer_pct: 50, lookup_pct: 10, ops: (3, 12), ..d },
         "C11" => PProfile { chaos_clear_pct: 70, inline_clear_pct: 10, metrics_on: true, ops: (3, 14), ..d },
-        "C12" => PProfile { chaos_close_pct: 70, finale_close_pct: 50, finale_drop_pct: 40, wait_pct: 8, ops: (2, 10), small_buffer_pct: 30, ..d },
+        "C12" => PProfile { chaos_close_pct: 70, chaos_clear_pct: 40, finale_close_pct: 50, finale_drop_pct: 40, wait_pct: 8, ops: (2, 10), small_buffer_pct: 30, ..d },
         "C13" => PProfile { lookup_pct: 75, keys: (1, 12), wide_config: true, chaos_clear_pct: 15, over_capacity_pct: 20, ops: (8, 40), remove_pct: 3, ..d },
         "C15" => PProfile { lookup_pct: 75, keys: (1, 8), wide_config: true, metrics_on: true, ops: (8, 40), remove_pct: 3, chaos_close_pct: 15, ..d },
         "C17" => PProfile { metrics_on: true, inline_clear_pct: 10, over_capacity_pct: 60, small_buffer_pct: 30, ..d },
@@ -514,7 +514,7 @@ pub fn gen_p_family(prop: &str, seed: u64, pf: &PProfile) -> Plan {
     }
     let mut chaos = Vec::new();
     if rng.chance(pf.chaos_clear_pct, 100) {
-        let n = rng.range(1, 2);
+        let n = rng.range(1, 3);
         for _ in 0..n {
             chaos.push(Chaos { at_step: chaos_step(&mut rng), op: Op::Clear });
         }
@@ -746,6 +746,7 @@ pub fn gen_plan(prop: &str, seed: u64, variant: u64) -> Plan {
         "C03" if variant % 4 == 2 => gen_p_family(prop, seed, &PProfile { ttl_pct: 70, lookup_pct: 45, over_capacity_pct: 30, remove_pct: 8, ..PProfile::default() }),
         "C03" | "C04" => gen_ttl_family(prop, seed, variant % 4 == 3),
         "C05" => gen_ttl_family(prop, seed, variant % 2 == 1),
+        "C09" if variant % 4 == 2 => gen_p_family(prop, seed, &PProfile { clients: (2, 4), keys: (1, 3), validator_pct: 100, if_present_pct: 25, lookup_pct: 15, remove_pct: 8, over_capacity_pct: 20, collide_pct: 0, ttl_pct: 25, ops: (6, 24), ..PProfile::default() }),
         "C09" => gen_ttl_family_c(prop, seed, variant % 5 == 4, true),
         "C19" => gen_diff(seed, variant),
         "C16" => gen_p_family(prop, seed, &PProfile { clients: (1, 2), coster_pct: 60, over_capacity_pct: 50, barrier_every: (1, 3), collide_pct: 0, faulty_pct: 20, ttl_pct: 15, if_present_pct: 15, ops: (6, 30), ..PProfile::default() }),
